@@ -7,6 +7,7 @@ import (
 	"fmt"
 	"os"
 	"path/filepath"
+	"regexp"
 	"sort"
 	"strings"
 	"testing"
@@ -228,3 +229,132 @@ func injectedDesc(events []world.Event) string {
 }
 
 func traceOf(lines []string) string { return strings.Join(lines, "\n   ") }
+
+// subsetOf reports whether every field the manifest object specifies is present in live with the same value
+// (maps recursively; lists of named maps are matched by "name", other lists element-wise and of equal length).
+// It returns "" or a description of the first difference.
+func subsetOf(want, live interface{}, path string) string {
+	switch w := want.(type) {
+	case map[string]interface{}:
+		l, ok := live.(map[string]interface{})
+		if !ok {
+			return fmt.Sprintf("%s: manifest has a map, live has %T", path, live)
+		}
+		keys := make([]string, 0, len(w))
+		for k := range w {
+			keys = append(keys, k)
+		}
+		sort.Strings(keys)
+		for _, k := range keys {
+			lv, ok := l[k]
+			if !ok {
+				return fmt.Sprintf("%s.%s: missing in live object", path, k)
+			}
+			if d := subsetOf(w[k], lv, path+"."+k); d != "" {
+				return d
+			}
+		}
+		return ""
+	case []interface{}:
+		l, ok := live.([]interface{})
+		if !ok {
+			return fmt.Sprintf("%s: manifest has a list, live has %T", path, live)
+		}
+		named := len(w) > 0
+		for _, e := range w {
+			m, ok := e.(map[string]interface{})
+			if !ok {
+				named = false
+				break
+			}
+			if _, ok := m["name"].(string); !ok {
+				named = false
+				break
+			}
+		}
+		if named {
+			for _, e := range w {
+				wm := e.(map[string]interface{})
+				found := false
+				for _, le := range l {
+					if lm, ok := le.(map[string]interface{}); ok && lm["name"] == wm["name"] {
+						found = true
+						if d := subsetOf(wm, lm, fmt.Sprintf("%s[name=%v]", path, wm["name"])); d != "" {
+							return d
+						}
+					}
+				}
+				if !found {
+					return fmt.Sprintf("%s[name=%v]: missing in live list", path, wm["name"])
+				}
+			}
+			return ""
+		}
+		if len(w) != len(l) {
+			return fmt.Sprintf("%s: list length %d in manifest, %d live", path, len(w), len(l))
+		}
+		for i := range w {
+			if d := subsetOf(w[i], l[i], fmt.Sprintf("%s[%d]", path, i)); d != "" {
+				return d
+			}
+		}
+		return ""
+	default:
+		if jsonOf(want) != jsonOf(live) {
+			return fmt.Sprintf("%s: manifest %s, live %s", path, jsonOf(want), jsonOf(live))
+		}
+		return ""
+	}
+}
+
+// normObj round-trips an object through JSON so that number types are comparable (int64 vs float64).
+func normObj(o map[string]interface{}) map[string]interface{} {
+	var out map[string]interface{}
+	_ = json.Unmarshal([]byte(jsonOf(o)), &out)
+	return out
+}
+
+var hookNameRe = regexp.MustCompile(`^h\d+$`)
+
+// isHookKey reports whether an event key (object path, or waiter name list) concerns a generated hook object.
+func isHookKey(key string) bool {
+	if strings.HasPrefix(key, "[") { // waiter: [Kind/name ...]
+		for _, f := range strings.Fields(strings.Trim(key, "[]")) {
+			if i := strings.LastIndex(f, "/"); i >= 0 && hookNameRe.MatchString(f[i+1:]) {
+				return true
+			}
+		}
+		return false
+	}
+	i := strings.LastIndex(key, "/")
+	return i >= 0 && hookNameRe.MatchString(key[i+1:])
+}
+
+// faultPhase names where in the operation the injected fault hit: pre-hook | post-hook | wait | resource-<VERB> | store-...
+func faultPhase(events []world.Event) string {
+	waited := false
+	for _, e := range events {
+		if e.Layer == "wait" && (e.Verb == "Wait" || e.Verb == "WaitWithJobs") && !e.Injected {
+			waited = true
+		}
+		if !e.Injected {
+			continue
+		}
+		switch {
+		case e.Layer == "store":
+			return injectedDesc(events)
+		case e.Layer == "wait" && (e.Verb == "Wait" || e.Verb == "WaitWithJobs"):
+			return "wait"
+		case isHookKey(e.Key) || (e.Layer == "wait" && e.Verb == "WatchUntilReady"):
+			if waited {
+				return "post-hook"
+			}
+			return "pre-hook"
+		case e.Layer == "wait":
+			return "wait-" + e.Verb
+		default:
+			return "resource-" + e.Verb
+		}
+	}
+	return "none"
+}
